@@ -233,11 +233,17 @@ func NewPropFindResponse(path string, propfind *PropFind, props map[xml.Name]Pro
 			}
 		}
 	} else if prop := propfind.Prop; prop != nil {
+		seen := make(map[xml.Name]bool)
 		for _, raw := range prop.Raw {
 			xmlName, ok := raw.XMLName()
 			if !ok {
 				continue
 			}
+			// A property named more than once is reported once
+			if seen[xmlName] {
+				continue
+			}
+			seen[xmlName] = true
 
 			emptyVal := NewRawXMLElement(xmlName, nil, nil)
 
